@@ -680,6 +680,9 @@ func (d *driver) monitorLin(w *world, cfg progCfg, evs []event) map[uint64]strin
 		out = append(out, *l)
 	}
 	d.writeLin(out)
+	if len(out) > 14 {
+		d.rep.Sample(map[string]any{"program": cfg.ID, "linearized_execution_head": out[:14]})
+	}
 	return model
 }
 
